@@ -29,6 +29,7 @@ pub const SIZES_1: &[usize] = &[3];
 pub const THREADS_C: &[usize] = &[4, 1, 4, 0];
 pub const U64S: &[u64] = &[5, 1, 3];
 pub fn strings() -> Vec<String> { vec!["gamma".to_owned(), "alpha".to_owned(), "beta".to_owned()] }
+pub static WORDS: [&str; 4] = ["alfa", "bravo", "charlie", "delta"];
 pub const TEXT: &str = "abcde";
 /// Borrowed strings that alias one buffer (same start address, different lengths; one shared tail).
 pub fn prefixes() -> [&'static str; 4] { [&TEXT[..2], &TEXT[..1], &TEXT[..3], &TEXT[3..]] }
@@ -234,7 +235,7 @@ def gen_program(rng, crate, index, size):
             fn_args = "bencher: divan::Bencher"
             body_stmt = 'crate::vrun(%d, "", "", ""); bencher.bench(|| ());' % bid
         elif kind == "args":
-            form = rng.randrange(9) if force_form is None else force_form
+            form = rng.randrange(10) if force_form is None else force_form
             n = rng.choice([1, 2, 3, 5, 9, 30]) if form in (0, 2) else 3
             with_bencher = rng.random() < 0.5
             if form == 0:
@@ -256,6 +257,9 @@ def gen_program(rng, crate, index, size):
                 expr, ty, labels = "[]", "u8", []
             elif form == 8:
                 expr, ty, labels = "crate::prefixes()", "&str", ["ab", "a", "abc", "de"]
+            elif form == 9:
+                # references into one table, in an order of the caller's choosing (first and last in place, middle permuted)
+                expr, ty, labels = "[&crate::WORDS[0], &crate::WORDS[2], &crate::WORDS[1], &crate::WORDS[3]]", "&'static &'static str", ["alfa", "charlie", "bravo", "delta"]
             else:
                 vals = [1.5, 0.25, 10.0]
                 expr, ty, labels = "[1.5, 0.25, 10.0]", "f64", ["1.5", "0.25", "10"]
@@ -398,7 +402,7 @@ def gen_program(rng, crate, index, size):
         body.append("mod all_forms {")
         body.append("    use std::time::Duration;")
         sub = [crate, "all_forms"]
-        for form in range(9):
+        for form in range(10):
             add_bench(sub, 1, nested_ok=False, force_kind="args", force_form=form)
         for form in range(3):
             add_bench(sub, 1, nested_ok=False, force_kind="consts_ext", force_form=form)
